@@ -477,6 +477,14 @@ theorem ins_log_evidence_from_samples_source_eq_model (s : List (K × K)) :
     Gen.InsState.log_evidence_from_ins_samples (s.map (·.1)) (s.map (·.2)) = insZ (insWeights s []) := by
   simp [Gen.InsState.log_evidence_from_ins_samples, insZ, insWeights, zipWith_mul_unzip]
 
+/-- `compute_evidence_ratio(ns_only)` on the state `update_evidence(nested, live)` leaves (`_weights_lp`, `_weights_ns`, `_logZ`,
+`_n`) is the model's `insRatio`: the quantity behind the `ratio` and `ratio_ns` stopping criteria of C15 -/
+theorem ins_evidence_ratio_source_eq_model (nested live : List (K × K)) (nsOnly : Bool) :
+    Gen.InsState.compute_evidence_ratio (insWeights [] live) (insWeights nested [])
+        (sumL (insWeights nested live)) (insWeights nested live).length nsOnly
+      = insRatio nested live nsOnly := by
+  cases nsOnly <;> rfl
+
 example : Gen.InsState.update_evidence [(2 : ℚ), 4] [1 / 2, 1 / 4] (some ([3], [1 / 3])) = ([1, 1, 1], 3, 3) := by
   norm_num [Gen.InsState.update_evidence, sumL]
 
